@@ -101,6 +101,29 @@ def inline_env(cfg: CFG, stmt, params=(), strict_names=None):
             ambiguous.add(name)
     for n in chain:
         s = cfg.stmt[n]
+        if s is not None and cfg.kind[n] == "test" and isinstance(s, ast.If) and _simple_diamond(s) \
+                and not _inside(stmt, s):
+            # both arms are straight-line assignments: merge them as conditional expressions (phi)
+            test = subst_names(s.test, env)
+            arms = []
+            for blk in (s.body, s.orelse):
+                e2 = dict(env)
+                for st in blk:
+                    if isinstance(st, ast.Assign):
+                        for t, v in tuple_assign_pairs(st):
+                            if isinstance(t, ast.Name):
+                                e2[t.id] = subst_names(v, e2)
+                    elif isinstance(st, ast.AugAssign) and isinstance(st.target, ast.Name):
+                        cur = e2.get(st.target.id, ast.Name(id=st.target.id, ctx=ast.Load()))
+                        e2[st.target.id] = ast.BinOp(left=clone(cur), op=st.op, right=subst_names(st.value, e2))
+                arms.append(e2)
+            changed = {k for a in arms for k in a if a.get(k) is not env.get(k)}
+            for k in changed:
+                a = arms[0].get(k, ast.Name(id=k, ctx=ast.Load()))
+                b = arms[1].get(k, ast.Name(id=k, ctx=ast.Load()))
+                env[k] = ast.IfExp(test=clone(test), body=a, orelse=b)
+                ambiguous.discard(k)
+            continue
         if s is None or cfg.kind[n] not in ("stmt",):
             continue
         if isinstance(s, ast.Assign):
@@ -114,6 +137,28 @@ def inline_env(cfg: CFG, stmt, params=(), strict_names=None):
         env.pop(a, None)
     env["__ambiguous__"] = ambiguous
     return env
+
+
+def _simple_diamond(ifstmt):
+    for blk in (ifstmt.body, ifstmt.orelse):
+        for st in blk:
+            if isinstance(st, ast.Pass):
+                continue
+            if not isinstance(st, (ast.Assign, ast.AugAssign)):
+                return False
+            for t in assigned_targets(st):
+                if not isinstance(t, ast.Name):
+                    return False
+    return True
+
+
+def _inside(stmt, ifstmt):
+    for blk in (ifstmt.body, ifstmt.orelse):
+        for st in blk:
+            for x in ast.walk(st):
+                if x is stmt:
+                    return True
+    return False
 
 
 def resolve_at(cfg, stmt, expr):
